@@ -277,9 +277,30 @@ Definition ecdh_fields :=
 Definition c_ecdh : codec ecdh_t ecdh_t := obj ecdh_fields.
 
 (* RSAPublicKey{*rsa.PublicKey}: exponent is a json.Number *)
+(* encoding/json stores a JSON string into a json.Number when it is a valid number literal;
+   big.Int.SetString(_, 10) then accepts it only if it is an integer: "-7", "0", "12" but not
+   "+7", "07", "1.5", "1e3", "" *)
+Definition json_int_lit (s : string) : option Z :=
+  let nonneg (r : string) : option Z :=
+    match r with
+    | EmptyString => None
+    | String c r' =>
+        if all_digits r then
+          (if Ascii.eqb c "0"%char then (if is_empty_s r' then Some 0%Z else None)
+           else match parse_N r with Some n => Some (Z.of_N n) | None => None end)
+        else None
+    end in
+  match s with
+  | String c r => if Ascii.eqb c "-"%char then option_map Z.opp (nonneg r) else nonneg s
+  | EmptyString => None
+  end.
 Definition k_number : fkind Z (option Z) :=
   {| emit := fun z => Some (JNum z);
-     absorb := fun o => match o with None => Ok None | Some (JNum z) => Ok (Some z) | Some _ => Err end |}.
+     absorb := fun o => match o with
+                        | None => Ok None
+                        | Some (JNum z) => Ok (Some z)
+                        | Some (JStr s) => match json_int_lit s with Some z => Ok (Some z) | None => Err end
+                        | Some _ => Err end |}.
 Definition rsapub_fields :=
   FCons "exponent" k_number (FCons "modulus" k_bytes_null (FCons "length" (k_i64 false) FEnd)).
 Definition rsapub_t := option (Z * string).
